@@ -1335,3 +1335,26 @@ func NestFamily(thorough bool) []KeyParams {
 	}
 	return out
 }
+
+
+// FileCrashShapes are the file-flow programs whose runs are interrupted at
+// every effect (C04/C14 crash-restart phase).
+func FileCrashShapes(thorough bool) []FileParams {
+	var out []FileParams
+	outs := []string{"f", "fs"}
+	if thorough {
+		outs = []string{"f", "fs", "s", "fm", "d"}
+	}
+	for _, o := range outs {
+		for _, prod := range []string{"filew", "splitw"} {
+			for _, mode := range []string{"rolling", "strict"} {
+				for _, late := range []bool{false, true} {
+					for _, top := range []bool{false, true} {
+						out = append(out, FileParams{Out: o, Prod: prod, Vol: "call", Mode: mode, Late: late, TopOut: top, Size: 2})
+					}
+				}
+			}
+		}
+	}
+	return out
+}
